@@ -373,6 +373,15 @@ let cmd_binding t =
   let code = function BDenseNamed -> 0 | BDenseFast -> 1 | BSparseNamed -> 2 | BSparseFast -> 3 | BCallable -> 4 | BError -> 5 in
   out_int (code (init_binding sp m)); out_int (code (load_binding false sp m))
 
+(* transform nq k ind[nq*k] dist[nq*k] -> per row: nodup-flag col val col val ... ; *)
+let cmd_transform t =
+  let nq = next_int t in let k = next_int t in
+  let ind = next_mat t nq k in let dist = next_mat t nq k in
+  List.iteri (fun i ri ->
+    out_int (if nodupb ri then 1 else 0);
+    List.iter (fun (c, v) -> out_z c; out_z v) (transform_row ind dist (nat_of_int i));
+    out_str ";") ind
+
 (*DISPATCH-BEGIN*)
 let dispatch : (string * (toks -> unit)) list = [
   ("heapseq", cmd_heapseq);
@@ -401,6 +410,7 @@ let dispatch : (string * (toks -> unit)) list = [
   ("aliasrun", cmd_aliasrun);
   ("lifecycle", cmd_lifecycle);
   ("binding", cmd_binding);
+  ("transform", cmd_transform);
   ("invalidate", cmd_invalidate);
   ("conncert", cmd_conncert);
 ]
